@@ -223,7 +223,29 @@ func (c *Ctx) dirtyDiscipline() {
 				nset++
 				key := fmt.Sprintf("%s:store(%s)->dirty", fname(fn), field)
 				path := pathAvoiding(st, func(i2 ssa.Instruction) bool { return isDirtyStore(i2) || callsDirtying(i2) })
-				// a store of a freshly allocated replacement is followed by dirty in the same branch
+				// dirty set on every path before the store (nothing in a mutator clears it again) is as good
+				if path != nil {
+					clears := false
+					var marks []ssa.Instruction
+					for _, b2 := range fn.Blocks {
+						for _, i2 := range b2.Instrs {
+							if isDirtyStore(i2) || callsDirtying(i2) {
+								marks = append(marks, i2)
+							} else if st2, ok := i2.(*ssa.Store); ok {
+								if p2 := ir.PathOf(st2.Addr); len(p2.Fields) > 0 && p2.Fields[len(p2.Fields)-1] == "dirty" {
+									clears = true
+								}
+							}
+						}
+					}
+					if !clears {
+						for _, m := range marks {
+							if ir.Before(m, st) {
+								path = nil
+							}
+						}
+					}
+				}
 				if path == nil {
 					c.R.Ok("T3-dirty-discipline", key, c.P.InstrPos(st), "every path from the store to a return sets dirty")
 				} else {
